@@ -49,6 +49,16 @@ def directed(tier):
                         sends=[dict(side='A', length=5 + pos, at=-1 if pos < 3 else pos) for pos in range(count)] +
                         [dict(side='B', length=30 + pos, at=2 * pos) for pos in range(11)]))
         idx += 1
+    # keepalive running: a slow, narrow link on which the KEEPALIVE timer fires while segments are still queued, and a negotiation
+    # that takes longer than the keepalive interval.  (The session never falls silent, so the run ends at a virtual-time horizon.)
+    for (ka_a, ka_b, latency_ms, cap, seg, lens_a, lens_b) in ((1, 1, 300, 600, 2000, [5000, 3000], [2000]), (1, 2, 200, 256, 900, [4000], [10, 2500]),
+                                                               (2, 1, 1500, None, 100, [250, 30], [120]), (1, 1, 2500, 4000, 5000, [12000], []),
+                                                               # more than two 10240-octet pulls waiting in the message-level buffer for longer than the interval
+                                                               (1, 1, 1000, 3000, 40000, [100000, 7], [50000])):
+        out.append(dict(id='dir-%d' % idx, seed=idx, policy='eager', capacity=cap, latency_ns=latency_ms * 1000000, horizon_ns=1800 * 10 ** 9,
+                        cfg_a=dict(segment_size_tx_initial=seg, keepalive_time=ka_a), cfg_b=dict(segment_size_tx_initial=seg, keepalive_time=ka_b),
+                        sends=[dict(side='A', length=val, at=-1) for val in lens_a] + [dict(side='B', length=val, at=3) for val in lens_b]))
+        idx += 1
     # one octet at a time
     for seg in (1, 7, 100):
         out.append(dict(id='dir-%d' % idx, seed=idx, policy='octet', capacity=None, cfg_a=dict(segment_size_tx_initial=seg),
@@ -122,6 +132,10 @@ def execute(scn, max_steps=400000, actions=None, on_step=None, on_create=None):
         fire(step)
         if on_step is not None:
             on_step(run, step)
+        if scn.get('horizon_ns') and run.sim.world.now_ns >= scn['horizon_ns'] and not (pending or extra):
+            # a session with a running keepalive never falls silent: observation ends at the horizon
+            result = 'quiescent'
+            break
         if run.sim.step() is None:
             if pending or extra:
                 # nothing happens any more: issue the remaining user actions now
